@@ -44,6 +44,7 @@ Threads == DOMAIN Scripts
 AllThreads == {0} \cup Threads
 
 BmOf(bit) == bit \div BmSize
+SlotOfBm(bm) == bm % WordBits          \* bit of the poll-waker summary word announcing bitmap bm
 WordOf(bit) == (bit % BmSize) \div WordBits
 BitOf(bit) == bit % WordBits
 BaseOf(bm) == bm * BmSize
@@ -53,6 +54,9 @@ Rel(o) == o \in {"SeqCst", "AcqRel", "Release"}
 Acq(o) == o \in {"SeqCst", "AcqRel", "Acquire"}
 
 ChanW == 1
+CtlW == 7             \* optional control Waker of a channel case (created before the channel)
+HasCtl == CtlW \in DOMAIN WakerBits
+MaxBm == IF DOMAIN WakerBits = {} THEN 0 ELSE BmOf(Max({WakerBits[w] : w \in DOMAIN WakerBits}))
 \* slab index of the single Waker of a channel / piped thread (1 unless filler
 \* wakers were created first: WakerBits then gives its index)
 ChanBit == IF ChanW \in DOMAIN WakerBits THEN WakerBits[ChanW] ELSE 1
@@ -72,11 +76,14 @@ SInit ==
     top |-> {},           \* set of bitmap slots
     rel |-> << >>,        \* location -> view released there
     notified |-> FALSE,
-    handlers |-> IF Kind = "waker" THEN {WakerBits[w] : w \in DOMAIN WakerBits} ELSE {ChanBit},
-    wbit |-> IF Kind = "waker" THEN WakerBits ELSE (ChanW :> ChanBit),   \* live waker -> bit
+    handlers |-> IF Kind = "waker" THEN {WakerBits[w] : w \in DOMAIN WakerBits}
+                 ELSE {ChanBit} \cup (IF HasCtl THEN {WakerBits[CtlW]} ELSE {}),
+    wbit |-> IF Kind = "waker" THEN WakerBits
+             ELSE (ChanW :> ChanBit) @@ (IF HasCtl THEN (CtlW :> WakerBits[CtlW]) ELSE << >>),   \* live waker -> bit
     hid |-> IF Kind = "waker" THEN WakerBits ELSE (ChanW :> ChanBit),    \* installed handler of waker -> bit
     free |-> << >>,       \* freed slab slots, most recent first
     nextBit |-> IF Kind = "waker" THEN Max({WakerBits[w] : w \in DOMAIN WakerBits}) + 1 ELSE ChanBit + 1,
+    fq |-> << >>,
     nextW |-> 1000,
     dropList |-> << >>, mtx |-> << >>,     \* mutex name -> owner thread (absent = free)
     \* channel
@@ -88,7 +95,8 @@ SInit ==
 
 Init ==
   /\ s = SInit
-  /\ mon = [CInit0({}) EXCEPT !.known = IF Kind = "waker" THEN DOMAIN WakerBits ELSE {ChanW},
+  /\ mon = [CInit0({}) EXCEPT !.known = IF Kind = "waker" THEN DOMAIN WakerBits
+                                          ELSE {ChanW} \cup (IF HasCtl THEN {CtlW} ELSE {}),
                               !.piped = Kind = "piped"]
   /\ bad = {}
   /\ hist = [sched |-> << >>, lo |-> << >>, hi |-> << >>]
@@ -120,6 +128,7 @@ NextOp(x, t) ==
 StartSet(x, t, bit, ret) ==
   [x EXCEPT !.th[t].bit = bit, !.th[t].lvl = "leaf", !.th[t].ret = ret, !.th[t].pc = "set"]
 
+RECURSIVE ProcessRv(_)
 \* what happens when the set returns
 AfterSet(x, t) ==
   LET r == x.th[t].ret IN
@@ -130,6 +139,8 @@ AfterSet(x, t) ==
                      [e |-> "send_end", v |-> x.th[t].v, res |-> TRUE]), t)
     [] r = "gdrop" ->  \* ChannelGuard drop: Waker dropped inside the buffer lock
          NextOp(Emit(MUnlock([MUnlock(x, t, "DL") EXCEPT !.cq = << >>], t, "CH"), t, [e |-> "guard_drop_end"]), t)
+    [] r = "gdrop_h" -> \* the same from a handler: poll_wake goes on with the collected bits
+         ProcessRv(Emit(MUnlock([MUnlock(x, t, "DL") EXCEPT !.cq = << >>, !.th[0].pc = "inpoll"], t, "CH"), t, [e |-> "guard_drop_end"]))
     [] r = "lsend" ->
          NextOp(Emit(x, t, [e |-> "lsend_end", v |-> x.th[t].v, res |-> ~x.th[t].flag]), t)
     [] r = "exit" ->   \* worker thread's Waker dropped: thread ends
@@ -143,7 +154,7 @@ SetStep(x, t) ==
       loc == IF th.lvl = "leaf" THEN <<"leaf", bm, a>> ELSE IF th.lvl = "summ" THEN <<"summ", bm>> ELSE <<"top">>
       old == IF th.lvl = "leaf" THEN Get(x.leaf, <<bm, a>>, {})
              ELSE IF th.lvl = "summ" THEN Get(x.summ, bm, {}) ELSE x.top
-      newbit == IF th.lvl = "leaf" THEN b ELSE IF th.lvl = "summ" THEN a ELSE bm
+      newbit == IF th.lvl = "leaf" THEN b ELSE IF th.lvl = "summ" THEN a ELSE SlotOfBm(bm)
       x1 == IF th.lvl = "leaf" THEN [x EXCEPT !.leaf = Set(@, <<bm, a>>, old \cup {newbit})]
             ELSE IF th.lvl = "summ" THEN [x EXCEPT !.summ = Set(@, bm, old \cup {newbit})]
             ELSE [x EXCEPT !.top = old \cup {newbit}]
@@ -165,7 +176,6 @@ WakerOfBit(x, bit) == {w \in DOMAIN x.wbit : x.wbit[w] = bit}
 
 \* run the handlers for the collected bits until one needs a lock (a
 \* scheduling point) or the list is exhausted
-RECURSIVE ProcessRv(_)
 EndPoll(x) ==
   LET x1 == Emit(x, 0, [e |-> "poll_end"]) IN
   IF x.th[0].drain
@@ -187,6 +197,10 @@ ProcessRv(x) ==
           THEN \* reserved slot: process_waker_drops needs the drop-list lock
                [x1 EXCEPT !.th[0].pc = "take_dl"]
           ELSE IF bit \notin x.handlers THEN ProcessRv(x1)      \* slot vacant: ignored
+          ELSE IF HasCtl /\ bit = WakerBits[CtlW]
+          THEN \* control handler: drops the ChannelGuard from inside poll_wake
+               [Emit(Emit(x1, 0, [e |-> "handler", w |-> CtlW, deleted |-> FALSE]), 0, [e |-> "guard_drop_begin"])
+                  EXCEPT !.th[0].pc = "lock_ch", !.th[0].ret = "gdrop_h"]
           ELSE IF Kind = "waker"
           THEN LET ws == {w \in DOMAIN x.hid : x.hid[w] = bit} IN
                ProcessRv(IF ws = {} THEN x1
@@ -213,8 +227,10 @@ DrainStep(x) ==
   IF th.pc = "swap_top"
   THEN LET old == x.top
            v1 == IF Acq(OrdDrain) THEN th.view \cup Get(x.rel, <<"top">>, {}) ELSE th.view
+           \* every bitmap that exists in each announced slot is drained, in creation order
+           bms == SetToSortSeq({bm \in 0..MaxBm : SlotOfBm(bm) \in old}, LAMBDA p, q : SlotOfBm(p) < SlotOfBm(q) \/ (SlotOfBm(p) = SlotOfBm(q) /\ p < q))
            x1 == Lo([x EXCEPT !.top = {}, !.th[0].view = v1,
-                              !.th[0].todo = [i \in 1..Cardinality(old) |-> <<"summ", SetToSortSeq(old, <)[i]>>],
+                              !.th[0].todo = [i \in 1..Len(bms) |-> <<"summ", bms[i]>>],
                               !.th[0].rv = << >>, !.th[0].pc = "swap"], 0,
                     [k |-> "at", op |-> "swap", lvl |-> "top", arg |-> {}, old |-> old, ord |-> OrdDrain])
        IN IF old = {} THEN ProcessRv(x1) ELSE x1
@@ -250,6 +266,10 @@ StepOp(x, t) ==
               LET wr == <<t, x.th[t].ip>>
                   x1 == [x EXCEPT !.written = @ \cup {wr}, !.th[t].view = @ \cup {wr}, !.th[t].w = w]
               IN StartSet(Emit(x1, t, [e |-> "wake_begin", w |-> w]), t, x.wbit[w], "wake")
+    [] op[1] = "wakectl" ->
+         LET wr == <<t, x.th[t].ip>>
+             x1 == [x EXCEPT !.written = @ \cup {wr}, !.th[t].view = @ \cup {wr}, !.th[t].w = CtlW]
+         IN StartSet(Emit(x1, t, [e |-> "wake_begin", w |-> CtlW]), t, WakerBits[CtlW], "wake")
     [] op[1] = "drop" ->
          LET w == op[2] IN
          IF w \notin DOMAIN x.wbit THEN NextOp(Emit(x, t, [e |-> "nop"]), t)
@@ -299,12 +319,12 @@ RecvCheck(x, t) ==
 \* after acquiring a lock
 Locked(x, t) ==
   LET r == x.th[t].ret IN
-  CASE r = "drop" \/ r = "gdropdl" \/ r = "exit" ->
+  CASE r = "drop" \/ r = "gdropdl" \/ r = "gdropdl_h" \/ r = "exit" ->
          \* Waker::drop: push the id, then set the bitmap's reserved bit, all under the drop-list lock
          LET w == x.th[t].w
              bit == x.wbit[w]
              x1 == [x EXCEPT !.dropList = Append(@, bit), !.wbit = [k \in DOMAIN @ \ {w} |-> @[k]]]
-         IN StartSet(x1, t, BaseOf(BmOf(bit)), IF r = "gdropdl" THEN "gdrop" ELSE r)
+         IN StartSet(x1, t, BaseOf(BmOf(bit)), IF r = "gdropdl" THEN "gdrop" ELSE IF r = "gdropdl_h" THEN "gdrop_h" ELSE r)
     [] r = "send" ->
          IF x.copen
          THEN IF x.cq = << >> THEN StartSet([x EXCEPT !.th[t].w = ChanW], t, ChanBit, "send")
@@ -317,6 +337,9 @@ Locked(x, t) ==
          \* close(): waker.take() drops the Waker while the buffer lock is held
          IF x.copen THEN [x EXCEPT !.copen = FALSE, !.th[t].w = ChanW, !.th[t].pc = "lock_dl", !.th[t].ret = "gdropdl"]
          ELSE NextOp(Emit(MUnlock([x EXCEPT !.cq = << >>], t, "CH"), t, [e |-> "guard_drop_end"]), t)
+    [] r = "gdrop_h" ->
+         IF x.copen THEN [x EXCEPT !.copen = FALSE, !.th[t].w = ChanW, !.th[t].pc = "lock_dl", !.th[t].ret = "gdropdl_h"]
+         ELSE ProcessRv(Emit(MUnlock([x EXCEPT !.cq = << >>, !.th[0].pc = "inpoll"], t, "CH"), t, [e |-> "guard_drop_end"]))
     [] r = "psend" ->
          LET empty == x.psend = << >>
              x1 == MUnlock([x EXCEPT !.psend = Append(@, x.th[t].v)], t, "Q")
@@ -335,28 +358,31 @@ Locked(x, t) ==
     [] r = "storepanic" ->
          [MUnlock([x EXCEPT !.ppanic = x.th[t].v], t, "Q") EXCEPT !.th[t].pc = "exit_dl", !.th[t].w = ChanW]
 
+\* forwarding: each Fwd callback is user code; its return is a scheduling point
+FwdNext(x) ==
+  IF x.fq = << >>
+  THEN IF x.th[0].flag THEN ProcessDel(x, x.th[0].hq) ELSE ProcessRv(x)
+  ELSE [Emit([x EXCEPT !.fq = Tail(@)], 0, Head(x.fq)) EXCEPT !.th[0].pc = "fwding"]
+
 \* the channel / piped handler body once it holds its lock (main thread)
 HandlerLocked(x) ==
   LET deleted == x.th[0].flag
-      cont(y) == IF deleted THEN ProcessDel(y, y.th[0].hq) ELSE ProcessRv(y)
   IN IF Kind = "channel"
      THEN LET msgs == x.cq
               x1 == MUnlock([x EXCEPT !.cq = << >>], 0, "CH")
-              x2 == IF x.copen
-                    THEN FoldSeq(LAMBDA v, acc : Emit(acc, 0, [e |-> "fwd", v |-> v]), x1, msgs)
-                    ELSE x1
-          IN cont(x2)
+              evs == IF x.copen THEN [i \in 1..Len(msgs) |-> [e |-> "fwd", v |-> msgs[i]]] ELSE << >>
+          IN FwdNext([x1 EXCEPT !.fq = evs])
      ELSE LET msgs == x.precv
               pan == x.ppanic
               x1 == MUnlock([x EXCEPT !.precv = << >>, !.ppanic = IF deleted THEN "" ELSE @], 0, "Q")
-              x2 == FoldSeq(LAMBDA v, acc : Emit(acc, 0, [e |-> "precv", v |-> v]), x1, msgs)
-              x3 == IF deleted THEN Emit(x2, 0, [e |-> "pterm", panic |-> pan # "", msg |-> pan]) ELSE x2
-          IN cont(x3)
+              evs == [i \in 1..Len(msgs) |-> [e |-> "precv", v |-> msgs[i], panic |-> FALSE, msg |-> ""]]
+                     \o (IF deleted THEN <<[e |-> "pterm", v |-> 0, panic |-> pan # "", msg |-> pan]>> ELSE << >>)
+          IN FwdNext([x1 EXCEPT !.fq = evs])
 
 (* ------------------------------------------------------------------ *)
 Enabled(x, t) ==
   LET pc == x.th[t].pc IN
-  CASE pc \in {"begin", "ready", "set", "pw_ret", "swap_top", "swap", "notify"} -> TRUE
+  CASE pc \in {"begin", "ready", "set", "pw_ret", "swap_top", "swap", "notify", "fwding"} -> TRUE
     [] pc = "lock_dl" \/ pc = "exit_dl" \/ pc = "take_dl" -> MFree(x, "DL")
     [] pc = "lock_ch" -> MFree(x, "CH")
     [] pc = "lock_q" -> MFree(x, "Q")
@@ -372,6 +398,7 @@ Do(x, t) ==
     [] pc = "ready" -> StepOp(x, t)
     [] pc = "set" -> SetStep(x, t)
     [] pc = "pw_ret" -> AfterSet(x, t)
+    [] pc = "fwding" -> FwdNext([x EXCEPT !.th[0].pc = "inpoll"])
     [] pc = "swap_top" \/ pc = "swap" -> DrainStep(x)
     [] pc = "lock_dl" -> Locked(MLock(x, t, "DL"), t)
     [] pc = "exit_dl" -> Locked(MLock([x EXCEPT !.th[t].ret = "exit"], t, "DL"), t)
@@ -405,7 +432,9 @@ Next ==
   \E t \in AllThreads :
     /\ Enabled(s, t)
     /\ LET x == Do(s, t)
-           r == Fold(mon, x.evs, Len(hist.hi) + 1)
+           \* within one action the low-level records precede the high-level events that follow them
+           m1 == FoldSeq(LAMBDA rec, acc : IF rec.k = "at" THEN CApplyLo(acc, rec) ELSE acc, mon, x.lo)
+           r == Fold(m1, x.evs, Len(hist.hi) + 1)
        IN /\ s' = [x EXCEPT !.evs = << >>, !.lo = << >>]
           /\ mon' = r.st
           /\ bad' = bad \cup r.bad
